@@ -81,6 +81,7 @@ var VerifEntries = map[string]func(){
 	"VerifC03_Treasury":       VerifC03_Treasury,
 	"VerifC03_ValidatorKeyed": VerifC03_ValidatorKeyed,
 	"VerifC03_UserOwned": VerifC03_UserOwned,
+	"VerifC13_Prune": VerifC13_Prune,
 	"VerifC08_Twin": VerifC08_Twin,
 	"VerifC07_Attest": VerifC07_Attest,
 	"VerifC07_SingleUse": VerifC07_SingleUse,
